@@ -306,10 +306,13 @@ class bicgstabl {
                     }
                 }
 
-                // Symmetrize MZa
+                // Make MZa Hermitian: MZa(i,j) = R_i^H R_j. The first row is
+                // used as the right-hand side of the normal equations below
+                // and has to hold R_j^H R_0.
                 for (int i = 0; i <= L; ++i) {
                     for (int j = i+1; j <= L; ++j) {
-                        MZa(i, j) = MZa(j, i) = math::adjoint(MZa(j, i));
+                        MZa(j, i) = math::adjoint(MZa(j, i));
+                        MZa(i, j) = (i == 0) ? MZa(j, i) : math::adjoint(MZa(j, i));
                     }
                 }
 
